@@ -91,7 +91,7 @@ theorem wf_optStr_description (o : Option String) : wfKws (optStr "description" 
     schemaMapKeywords, strOf]
 
 theorem wfEntry_type (t : String) (h : primitiveNames.contains t = true) : wfEntry "type" (.str t) = true := by
-  simp [wfEntry, wfSimple, wfType, schemaKeywords, schemaArrayKeywords, schemaMapKeywords]
+  simp [wfEntry, wfSimple, wfType, typeNonEmpty, schemaKeywords, schemaArrayKeywords, schemaMapKeywords]
   simpa using h
 
 theorem wf_plainSchema (p : Prim) : wfKws (plainSchema p) = true := by
@@ -329,8 +329,13 @@ theorem mem_dedupPrims {x : Prim} {l : List Prim} : x ∈ dedupPrims l ↔ x ∈
         · exact Or.inl h
         · exact Or.inr ⟨h, by simpa using hxy⟩
 
-theorem wfType_names (ts : List String) (hn : ∀ t ∈ ts, primitiveNames.contains t = true) (hd : ts.Nodup) :
-    wfType (.arr (ts.map Json.str)) = true := by
+theorem wfType_names (ts : List String) (hne : ts ≠ []) (hn : ∀ t ∈ ts, primitiveNames.contains t = true) (hd : ts.Nodup) :
+    (wfType (.arr (ts.map Json.str)) && typeNonEmpty (.arr (ts.map Json.str))) = true := by
+  have hne' : typeNonEmpty (.arr (ts.map Json.str)) = true := by
+    cases ts with
+    | nil => exact absurd rfl hne
+    | cons t rest => rfl
+  rw [hne', Bool.and_true]
   simp only [wfType, Bool.and_eq_true, List.all_eq_true]
   refine ⟨?_, by rw [allDistinct_strs]; exact (strDistinct_iff_nodup ts).mpr hd⟩
   intro j hj
@@ -338,27 +343,32 @@ theorem wfType_names (ts : List String) (hn : ∀ t ∈ ts, primitiveNames.conta
   obtain ⟨t, ht, rfl⟩ := hj
   exact hn t ht
 
-theorem wfType_dedup (ps : List Prim) : wfType (namesType (dedupStrs (ps.map getPrimitive))) = true := by
+theorem wfType_dedup (ps : List Prim) (hps : ps ≠ []) :
+    (wfType (namesType (dedupStrs (ps.map getPrimitive))) && typeNonEmpty (namesType (dedupStrs (ps.map getPrimitive)))) = true := by
+  have hne : dedupStrs (ps.map getPrimitive) ≠ [] := by
+    cases ps with
+    | nil => exact absurd rfl hps
+    | cons p rest => simp [dedupStrs]
   have hmem : ∀ t ∈ dedupStrs (ps.map getPrimitive), primitiveNames.contains t = true := by
     intro t ht
     rw [mem_dedupStrs, List.mem_map] at ht
     obtain ⟨p, _, rfl⟩ := ht
     exact getPrimitive_name p
   have hnd := dedupStrs_nodup (ps.map getPrimitive)
-  generalize dedupStrs (ps.map getPrimitive) = ts at hmem hnd
+  generalize dedupStrs (ps.map getPrimitive) = ts at hmem hnd hne
   unfold namesType
   match ts with
-  | [] => exact wfType_names [] hmem hnd
-  | [t] => simp only [wfType]; exact hmem t (List.mem_cons_self ..)
-  | t :: u :: rest => exact wfType_names _ hmem hnd
+  | [] => exact absurd rfl hne
+  | [t] => simp only [wfType, typeNonEmpty, Bool.and_true]; exact hmem t (List.mem_cons_self ..)
+  | t :: u :: rest => exact wfType_names _ (by simp) hmem hnd
 
-theorem wfType_enumType (e : EnumDecl) : wfType (enumType e) = true := by
+theorem wfType_enumType (e : EnumDecl) : (wfType (enumType e) && typeNonEmpty (enumType e)) = true := by
   unfold enumType
   generalize enumPyTypes e = ps
   match ps with
   | [] => decide
-  | [p] => simp only [wfType]; exact getPrimitive_name p
-  | p :: q :: rest => exact wfType_dedup _
+  | [p] => simp only [wfType, typeNonEmpty, Bool.and_true]; exact getPrimitive_name p
+  | p :: q :: rest => exact wfType_dedup _ (by simp)
 
 theorem wf_enumSchema (e : EnumDecl) : wfKws (enumSchema e) = true := by
   unfold enumSchema
